@@ -38,7 +38,7 @@ fn setups(env: &Env, sugg: bool) -> Result<Vec<Setup>, String> {
             let sess = Sess::new(spec, &root).map_err(|p| format!("context creation panicked at {}: {}", p.loc, p.msg))?;
             let oracle = LayoutOracle::load(lay)?;
             let mut pres = vec![];
-            for p in ["ক", "অ", "!", "\u{09CD}", "র"] {
+            for p in ["ক", "অ", "!", "\u{09CD}", "র", "\u{09C7}", "\u{09BE}", "\u{0981}"] {
                 let (pk, pm) = oracle.key_for_value(p).ok_or(format!("layout has no key for {p}"))?;
                 pres.push((pk, pm, p.to_string()));
             }
@@ -169,7 +169,7 @@ impl Prop for C04 {
     }
     fn rule(&self) -> String {
         "complete enumeration: every u16 key code x modifier in {0,1,2,3,4,5,0x80,0xFE,0xFF} x numpad off/on x {the bundled Probhat.json; verif.json (synthetic: multi-code-point, white-space-only and empty entries); a second file called Probhat.json with four keys exchanged, named by the relative path `Probhat.json` from its own directory while the data directory holds the bundled file of that name} \
-         x {idle, after the consonant ক} (the 111 published codes also after the vowel অ, after '!', after a hasanta and after র, where the expectation is the rule model of C12 with all helpers off), suggestions off (pre-edit text compared with the layout JSON read independently), plus the 111 published \
+         x {idle, after the consonant ক} (the 111 published codes also after the vowel অ, after '!', after a hasanta, after র, after the signs ে and া and after a chandrabindu, where the expectation is the rule model of C12 with all helpers off), suggestions off (pre-edit text compared with the layout JSON read independently), plus the 111 published \
          codes x 9 modifiers with suggestions on (first candidate), plus the number-pad option switched off/on/off/on by update_engine under a live context for every number-pad key. distinct_nontrivial = distinct (layout, key, plane, assigned text) tuples that \
          emitted text and were compared."
             .into()
